@@ -114,7 +114,6 @@ for _p, _r in {
     "C09": "check not yet registered in this session (work in progress, see DESIGN.md §3)",
     "C10": "check not yet registered in this session (work in progress, see DESIGN.md §3)",
     "C11": "check not yet registered in this session (work in progress, see DESIGN.md §3)",
-    "C12": "check not yet registered in this session (work in progress, see DESIGN.md §3)",
     "C13": "check not yet registered in this session (work in progress, see DESIGN.md §3)",
     "C14": "check not yet registered in this session (work in progress, see DESIGN.md §3)",
     "C15": "check not yet registered in this session (work in progress, see DESIGN.md §3)",
@@ -126,3 +125,15 @@ for _p, _r in {
 }.items():
     if _p not in CHECKS:
         na(_p, _r)
+
+claim("C12",
+      "Bounded symbolic model check of immutability as a two-run differential on the real code: an item or message is built from caller-owned slices with symbolic contents "
+      "(15 secs2 constructor shapes x 0..2 elements (thorough 3), string items, the copying and the owning Decode; data messages built directly / from a header / through Derive, their re-stamped copies, "
+      "control and data messages from the three frame decode entry points), fully observed through the public accessor/serializer/append surface, then every caller-visible slice and array "
+      "(constructor inputs, the decoded buffer, every slice ANY accessor of the object or of its copies returned, including spare capacity) is overwritten with symbolic non-zero XOR masks, and observed again: "
+      "the solver decides for all contents and all overwrite values that the observations are equal (an aliased backing array makes the second observation a function of the mask). "
+      "Lazy decode/encode sharing: the first observations are made by three goroutines on a message and two re-stamped copies under the cooperative scheduler with ONE preemption placed before each of the call instructions they execute "
+      "(bound checked: at most 48 call instructions), and all obtain the same item object, the same error, equal body bytes and one shared encoding buffer.",
+      "Trusted: executor + models (sync.Once/Mutex/atomics modelled; host-pointer identity for aliasing), z3. Outside the claim: data-race freedom as the Go memory model defines it (the executor has no happens-before tracker; "
+      "what is decided is result identity under the stated interleavings), more than one preemption, more than three readers, items of more than 3 elements or depth > 2, ToSML as an observation (C15), "
+      "buffers whose ownership the API transfers by contract (DecodeOwned, DecodeOwnedHSMSPayload: inputs not overwritten).")
